@@ -95,6 +95,9 @@ struct Response {
 struct Success {
     static std::optional<Success> fromDom(const QDomElement &);
     void toXml(QXmlStreamWriter *writer) const;
+
+    // additional data with success (RFC 6120, 6.3.10), e.g. the SCRAM server signature
+    QByteArray value;
 };
 
 }  // namespace Sasl
@@ -381,6 +384,13 @@ public:
     virtual void setCredentials(const QXmpp::Private::Credentials &) = 0;
     virtual QXmpp::Private::SaslMechanism mechanism() const = 0;
     virtual std::optional<QByteArray> respond(const QByteArray &challenge) = 0;
+    // Called when the server reports success, with the additional data sent along with it (may be
+    // empty). Returns false if the server has not authenticated itself as the mechanism requires.
+    virtual bool finish(const QByteArray &additionalData)
+    {
+        Q_UNUSED(additionalData)
+        return true;
+    }
 
     static bool isMechanismAvailable(QXmpp::Private::SaslMechanism, const QXmpp::Private::Credentials &);
     static std::unique_ptr<QXmppSaslClient> create(const QString &mechanism, QObject *parent = nullptr);
@@ -461,6 +471,7 @@ public:
     void setCredentials(const QXmpp::Private::Credentials &) override;
     QXmpp::Private::SaslMechanism mechanism() const override { return { QXmpp::Private::SaslDigestMd5Mechanism() }; }
     std::optional<QByteArray> respond(const QByteArray &challenge) override;
+    bool finish(const QByteArray &additionalData) override;
 
 private:
     QString m_password;
@@ -522,10 +533,12 @@ public:
     void setCredentials(const QXmpp::Private::Credentials &) override;
     QXmpp::Private::SaslMechanism mechanism() const override { return { m_mechanism }; }
     std::optional<QByteArray> respond(const QByteArray &challenge) override;
+    bool finish(const QByteArray &additionalData) override;
 
 private:
     QXmpp::Private::SaslScramMechanism m_mechanism;
     int m_step;
+    bool m_serverVerified = false;
     QString m_password;
     uint32_t m_dklen;
     QByteArray m_gs2Header;
